@@ -43,7 +43,7 @@ GEN = ['gen_uset_erase.json', 'gen_umap_erase.json', 'gen_ummap_erase.json', 'ge
        'gen_mapat.json', 'gen_seteqr.json', 'gen_umapcreate.json', 'gen_setcreate.json',
        'gen_setnodehint.json', 'gen_msetnodehint.json', 'gen_usetnodehint.json', 'gen_umapnodehint.json', 'gen_vector.json', 'gen_mapioa.json',
        'gen_setcmp.json', 'gen_setcmpd.json', 'gen_mapcmp.json', 'gen_mapcmpd.json', 'gen_veccmp.json', 'gen_veccmpd.json',
-       'gen_setnodeins.json', 'gen_usetnodeins.json', 'gen_setmerge.json']
+       'gen_setnodeins.json', 'gen_usetnodeins.json', 'gen_mapnodeins.json', 'gen_umapnodeins.json', 'gen_setmerge.json']
 INTERESTING = {'insh', 'emph', 'tryh', 'ioah', 'xinsh', 'xins', 'merge', 'err', 'erre', 'erra', 'err0', 'err1', 'eri', 'erf',
                'cmp', 'erif', 'ext', 'exti', 'at', 'errv', 'erloop', 'ernx', 'xmut', 'mrgm', 'mrgt', 'tryr', 'findh', 'eqrh', 'insm', 'fill', 'fillv', 'rdump', 'mvca', 'cpca', 'movq', 'ctor', 'emp0', 'rsvu', 'rhs', 'insn', 'insrv', 'insself', 'atv', 'swap', 'mov', 'cpy'}
 
@@ -270,6 +270,59 @@ def py_walk(kind, order, first, last):
     return None
 
 
+# ---------------------------------------------------------------------------------------------- regen
+def regen_fast(ctx, cfg_files):
+    """same contract as ctx.regen (write Gen_*.v, record a tie obligation per group, delete a stale file when the translation fails)
+    but the clang AST is dumped once per (TU, filter) - 7 dumps instead of one per config - and the dumps run in parallel"""
+    import concurrent.futures as cf, json as _json
+    cxx2coq = vlib_cxx2coq()
+    cfgs = []
+    for cfile in cfg_files:
+        cfg = _json.load(open(os.path.join(ctx.pdir, cfile)))
+        cfg.setdefault('includes', [os.path.join(ctx.repo, 'include')])
+        cfgs.append(cfg)
+    keys = {}
+    for cfg in cfgs:
+        keys.setdefault((cfg['tu'], cfg['filter'], cfg.get('std', 'c++17'), tuple(cfg.get('defines', []))), cfg)
+    dumps = {}
+
+    def dump(k):
+        try:
+            return k, cxx2coq.dump_ast(keys[k], ctx.repo), None
+        except cxx2coq.TranslationError as e:
+            return k, None, str(e)
+    with cf.ThreadPoolExecutor(max_workers=4) as ex:
+        for k, txt, err in ex.map(dump, list(keys)):
+            dumps[k] = (txt, err)
+    ok = True; details = []
+    for cfg in cfgs:
+        k = (cfg['tu'], cfg['filter'], cfg.get('std', 'c++17'), tuple(cfg.get('defines', [])))
+        out = os.path.join(ctx.cdir, cfg['name'] + '.v')
+        try:
+            ast, err = dumps[k]
+            if ast is None:
+                raise cxx2coq.TranslationError(err)
+            txt = cxx2coq.translate_group(cfg, ast_text=ast, repo=ctx.repo)
+            old = open(out).read() if os.path.exists(out) else None
+            if old != txt:
+                open(out, 'w').write(txt)
+            ctx.tie_obligations.append({'name': 'translate ' + cfg['name'], 'ok': True, 'sha256': hashlib.sha256(txt.encode()).hexdigest()[:16]})
+        except cxx2coq.TranslationError as e:
+            ok = False; details.append('%s: %s' % (cfg['name'], e))
+            if os.path.exists(out):
+                os.remove(out)      # a stale model must not keep the proofs green
+            ctx.tie_obligations.append({'name': 'translate ' + cfg['name'], 'ok': False, 'error': str(e)[:500]})
+    ctx.stage('regen', ok, '\n'.join(details))
+    return ok
+
+
+def vlib_cxx2coq():
+    import sys
+    sys.path.insert(0, os.path.join(os.path.dirname(os.path.dirname(os.path.dirname(os.path.abspath(__file__)))), 'tools'))
+    import cxx2coq
+    return cxx2coq
+
+
 # ---------------------------------------------------------------------------------------------- build
 def tree_hash(ctx):
     h = hashlib.sha256()
@@ -386,6 +439,7 @@ def three_way(ctx, exes, cases, have_model, label):
     bad = []
     bygroup = {}
     for cse in cases:
+        if ('momo', group_of(cse)) not in exes: continue   # e.g. thorough-only allocator kinds (group 9) reached by the search generator of a quick run
         bygroup.setdefault(group_of(cse), []).append(cse)
     ok_ms = ok_ss = ok_mstd = True
     for g, cs in sorted(bygroup.items()):
@@ -625,7 +679,18 @@ def run(ctx):
     ctx.assumptions += ['documented deviations are generator constraints: iterators re-acquired after every mutation; find/insert results only read, compared, erased or extracted; unordered range erase only with empty / single / whole-key / whole-container ranges (other ranges are exercised in the iterator-kind stage, where throwing is allowed)',
                         'element and key types are ints / a two-int struct compared by its first field; allocators: std::allocator and one stateful allocator with 4 propagation-trait combinations',
                         'unordered find()/erase(iterator) on a multimap key with several values is addressed by (key,value), since std leaves the choice among equivalent elements unspecified']
-    ctx.regen(GEN)
+    # a run against a private copy (mutant / seed) or a partial run must not replace the evidence of the last run against /repo
+    ev_path = os.path.join(ctx.root, 'evidence', 'C06.json')
+    ev_keep = open(ev_path, 'rb').read() if (os.path.exists(ev_path) and (os.environ.get('VERIF_REPO') or only_groups())) else None
+    rc = run_inner(ctx)
+    if ev_keep is not None:
+        open(ev_path, 'wb').write(ev_keep)
+    return rc
+
+
+def run_inner(ctx):
+    scale = 1 if ctx.quick() else 8
+    regen_fast(ctx, GEN)
     ctx.prove()
     exes = build_harnesses(ctx)
     if exes is None:
